@@ -41,7 +41,7 @@ package flushable
 //@
 //@ // put / delete: exactly the entry of string(key) changes: it now holds a private non-nil copy of the value / a tombstone
 //@ func (*Flushable).put
-//@   requires finv(w) && key != nil && value != nil
+//@   requires finv(w) && value != nil
 //@   modifies tHas[w.flushableReader.modified], tVal[w.flushableReader.modified], tN[w.flushableReader.modified], tKey[w.flushableReader.modified], tNode[w.flushableReader.modified], nOwner[*], nIdx[*], all(redblacktree.Node).Key, all(redblacktree.Node).Value, deref(w.sizeEstimation)
 //@   ensures  [inv] finv(w)
 //@   ensures  [set] ovHas(w.flushableReader.modified, key) && !ovDel(w.flushableReader.modified, key) && arrfresh(ovVal(w.flushableReader.modified, key), old(_alloc)) && len(ovVal(w.flushableReader.modified, key)) == len(value) && forall(i, 0, len(value), ovVal(w.flushableReader.modified, key)[i] == value[i])
@@ -214,3 +214,44 @@ package flushable
 //@   loop 1 invariant gWrOpN == old(gWrOpN) + itCur(it) + 1 && gBatchWriteN >= old(gBatchWriteN) && gBatchResetN >= old(gBatchResetN)
 //@   loop 1 invariant forall(i, 0, itCur(it) + 1, opIs(old(gWrOpN) + i, tKey[it.tree][i], tVal[it.tree][tKey[it.tree][i]], batch))
 //@   loop 1 invariant forall(i, 0, itCur(it) + 1, !arrfresh(gWrOpKey[old(gWrOpN) + i], _alloc))
+//@
+//@ // ---- batches of the flushable store: a list of private copies; a nil value marks a deletion ----
+//@ func (*Flushable).NewBatch
+//@   requires w != nil
+//@   ensures  typeis(result, "*cacheBatch") && fresh(unbox(result, "*cacheBatch")) && unbox(result, "*cacheBatch").db == w && len(unbox(result, "*cacheBatch").writes) == 0 && unbox(result, "*cacheBatch").size == 0
+//@ func (*cacheBatch).Put
+//@   requires b != nil
+//@   modifies b.writes, b.writes[*], b.size
+//@   ensures  result == nil && len(b.writes) == old(len(b.writes)) + 1 && forall(j, 0, old(len(b.writes)), b.writes[j] == old(b.writes[j]))
+//@   ensures  [key] (b.writes[len(b.writes) - 1].k == nil) == (key == nil) && len(b.writes[len(b.writes) - 1].k) == len(key) && forall(i, 0, len(key), b.writes[len(b.writes) - 1].k[i] == key[i])
+//@   ensures  [value] (b.writes[len(b.writes) - 1].v == nil) == (value == nil) && len(b.writes[len(b.writes) - 1].v) == len(value) && forall(i, 0, len(value), b.writes[len(b.writes) - 1].v[i] == value[i])
+//@   ensures  [own] (key != nil ==> arrfresh(b.writes[len(b.writes) - 1].k, old(_alloc))) && (value != nil ==> arrfresh(b.writes[len(b.writes) - 1].v, old(_alloc)))
+//@ func (*cacheBatch).Delete
+//@   requires b != nil
+//@   modifies b.writes, b.writes[*], b.size
+//@   ensures  result == nil && len(b.writes) == old(len(b.writes)) + 1 && forall(j, 0, old(len(b.writes)), b.writes[j] == old(b.writes[j]))
+//@   ensures  [key] b.writes[len(b.writes) - 1].v == nil && len(b.writes[len(b.writes) - 1].k) == len(key) && forall(i, 0, len(key), b.writes[len(b.writes) - 1].k[i] == key[i])
+//@ func (*cacheBatch).ValueSize
+//@   requires b != nil
+//@   ensures  result == b.size
+//@ func (*cacheBatch).Reset
+//@   requires b != nil
+//@   modifies b.writes, b.size
+//@   ensures  len(b.writes) == 0 && b.size == 0
+//@ // lastW(ws, n, k): index of the last of the first n writes whose key is k, -1 if none
+//@ spec lastW(ws []kv, n int, k string) int = ite(n <= 0, -1, ite(strof(ws[n-1].k) == k, n - 1, lastW(ws, n - 1, k)))
+//@ // Write applies the operations to the overlay in order (the last operation on a key wins); a closed store refuses
+//@ func (*cacheBatch).Write
+//@   requires b != nil && b.db != nil && b.db.underlying != nil && b.db.sizeEstimation != nil && b.db.flushableReader.underlying != nil && (b.db.flushableReader.modified != nil ==> ovOK(b.db.flushableReader.modified))
+//@   modifies tHas[b.db.flushableReader.modified], tVal[b.db.flushableReader.modified], tN[b.db.flushableReader.modified], tKey[b.db.flushableReader.modified], tNode[b.db.flushableReader.modified], nOwner[*], nIdx[*], all(redblacktree.Node).Key, all(redblacktree.Node).Value, deref(b.db.sizeEstimation)
+//@   ensures  [closed] b.db.flushableReader.modified == nil ==> result == errClosed
+//@   ensures  [inv] b.db.flushableReader.modified != nil ==> result == nil && finv(b.db)
+//@   ensures  [untouched] b.db.flushableReader.modified != nil ==> forall(k string, lastW(b.writes, len(b.writes), k) < 0 ==> tHas[b.db.flushableReader.modified][k] == old(tHas[b.db.flushableReader.modified][k]) && tVal[b.db.flushableReader.modified][k] == old(tVal[b.db.flushableReader.modified][k]))
+//@   ensures  [applied] b.db.flushableReader.modified != nil ==> forall(k string, lastW(b.writes, len(b.writes), k) >= 0 ==> tHas[b.db.flushableReader.modified][k] && (tVal[b.db.flushableReader.modified][k] == nil) == (b.writes[lastW(b.writes, len(b.writes), k)].v == nil) &&
+//@              (tVal[b.db.flushableReader.modified][k] != nil ==> len(unbox(tVal[b.db.flushableReader.modified][k], "[]byte")) == len(b.writes[lastW(b.writes, len(b.writes), k)].v) && forall(i, 0, len(b.writes[lastW(b.writes, len(b.writes), k)].v), unbox(tVal[b.db.flushableReader.modified][k], "[]byte")[i] == b.writes[lastW(b.writes, len(b.writes), k)].v[i])))
+//@   loop 1 modifies tHas[b.db.flushableReader.modified], tVal[b.db.flushableReader.modified], tN[b.db.flushableReader.modified], tKey[b.db.flushableReader.modified], tNode[b.db.flushableReader.modified], nOwner[*], nIdx[*], all(redblacktree.Node).Key, all(redblacktree.Node).Value, deref(b.db.sizeEstimation)
+//@   loop 1 invariant 0 <= _k && _k <= len(b.writes) && finv(b.db)
+//@   loop 1 invariant forall(k string, lastW(b.writes, _k, k) < 0 ==> tHas[b.db.flushableReader.modified][k] == old(tHas[b.db.flushableReader.modified][k]) && tVal[b.db.flushableReader.modified][k] == old(tVal[b.db.flushableReader.modified][k]))
+//@   loop 1 invariant forall(k string, lastW(b.writes, _k, k) >= 0 ==> tHas[b.db.flushableReader.modified][k] && (tVal[b.db.flushableReader.modified][k] == nil) == (b.writes[lastW(b.writes, _k, k)].v == nil) &&
+//@              (tVal[b.db.flushableReader.modified][k] != nil ==> len(unbox(tVal[b.db.flushableReader.modified][k], "[]byte")) == len(b.writes[lastW(b.writes, _k, k)].v) && forall(i, 0, len(b.writes[lastW(b.writes, _k, k)].v), unbox(tVal[b.db.flushableReader.modified][k], "[]byte")[i] == b.writes[lastW(b.writes, _k, k)].v[i])))
+//@   loop 1 invariant forall(k string, lastW(b.writes, _k, k) < _k)
